@@ -17,7 +17,7 @@ RULE = (
     "bounded tasks, explicit iterations on finite sources of size {1, w+n-1, w+n, w+n+1, 20}, self-completing runners with explicit "
     "iterations; clients {1,2,4}; ramp-up {none,1,2} (time-based), ramp-up {2,8} inside parallel elements of 2..3 sub-tasks allocated by the "
     "real Allocator; scheduler "
-    "{unthrottled, deterministic, poisson(seeded)}; target {2, 10 ops/s, '20 docs/s', interval 0.25}; weight/unit {(1,ops),(5,docs)} incl. "
+    "{unthrottled, deterministic, poisson(seeded)}; target {2, 10, 0.25 ops/s, '20 docs/s', '2.5 ops/s', '0.5 ops/s', '12.5 docs/s', interval 0.25}; weight/unit {(1,ops),(5,docs)} incl. "
     "unit mismatch against an ops/s target; service-time words {(1/16), (1/2), (1, 1/16), (3)}. "
     "non-trivial = more than one request per client; distinct = configuration"
 )
@@ -35,13 +35,16 @@ def configs(tier):
     global WORDS
     if tier == "thorough":
         WORDS = [(0.0625,), (0.5,), (1.0,), (3.0,), (1.0, 0.0625), (0.0625, 3.0), (0.5, 0.5, 3.0), (3.0, 0.0625, 0.0625)]
-    targets = [None, ("det", 2), ("det", 10), ("det", "20 docs/s"), ("det", ("interval", 0.25)), ("poisson", 2), ("poisson", 10)]
+    targets = [None, ("det", 2), ("det", 10), ("det", "20 docs/s"), ("det", ("interval", 0.25)), ("poisson", 2), ("poisson", 10),
+               ("det", "2.5 ops/s"), ("det", "0.5 ops/s"), ("det", "12.5 docs/s"), ("det", 0.25)]
     wus = [(1, "ops"), (5, "docs")]
     for clients in ((1, 2, 4) if tier == "quick" else (1, 2, 3, 4)):
         for word in WORDS:
             for tgt in targets:
                 for wu in wus:
-                    if tgt and isinstance(tgt[1], str) and wu[1] != "docs":
+                    if tgt and isinstance(tgt[1], str) and wu[1] != tgt[1].split()[1].split("/")[0]:
+                        continue
+                    if tgt and tgt[1] in ("2.5 ops/s", "0.5 ops/s", "12.5 docs/s", 0.25) and tier == "quick" and (clients == 4 or word not in (WORDS[0], WORDS[2])):
                         continue
                     for w in (None, 0, 1, 2, 3):
                         for n in (1, 2, 3):
